@@ -322,3 +322,10 @@ func drawRevs(rt *rapid.T) (client, server int) {
 	j := rapid.IntRange(i, len(windowRevs)-1).Draw(rt, "client-rev")
 	return windowRevs[j], n
 }
+
+// srvQueries returns how many Query packets the server has parsed.
+func (e *env) srvQueries() int {
+	n := 0
+	e.srv.WithStream(func(cs *ref.ClientStream) { n = cs.Count(ref.PQuery) })
+	return n
+}
